@@ -160,6 +160,13 @@ Example C18_var_filter_example :
           (Var "v0", Cst 5, Var "v1") = [(Cst 0, Cst 5, Cst 1)].
 Proof. vm_compute. reflexivity. Qed.
 
+(* order comparison between two variables uses their numeric values (7537bd2): "5"=0 "1"=1 a=2 p=3 q=4 *)
+Example C18_var_order_filter_example :
+  answers (fun c => if N.eqb c 0 then 5%Z else if N.eqb c 1 then 1%Z else 0%Z) [(0,3,1); (1,3,0); (1,3,1); (2,3,0)]
+          [Rule [(Var "X", Cst 3, Var "Y")] [(Var "X", Cst 4, Var "Y")] [Filter "X" CLt (FVar "Y")]]
+          (Var "s", Cst 4, Var "v0") = [(Cst 1, Cst 4, Cst 0); (Cst 2, Cst 4, Cst 0)].
+Proof. vm_compute. reflexivity. Qed.
+
 (* non-vacuity of C18_complete_shallow and C18_sound: a derived fact of height 2 *)
 Example C18_example_derivable :
   let F := [(0,10,1);(1,10,2)] in
